@@ -193,7 +193,7 @@ CACHE_DIR = os.path.join(HERE, ".cache")
 def tree_digest(scratch):
     import hashlib
     h = hashlib.sha256()
-    roots = [os.path.join(scratch, "src"), os.path.join(scratch, "Cargo.toml"), os.path.join(scratch, "Cargo.lock"), os.path.abspath(__file__)]
+    roots = [os.path.join(scratch, "src"), os.path.join(scratch, "Cargo.toml"), os.path.join(scratch, "Cargo.lock")]
     files = []
     for r in roots:
         if os.path.isdir(r):
@@ -208,7 +208,8 @@ def tree_digest(scratch):
         h.update(os.path.relpath(f, scratch).encode() if f.startswith(scratch) else os.path.basename(f).encode())
         h.update(b"\0")
         h.update(hashlib.sha256(open(f, "rb").read()).digest())
-    h.update(b"kani-0.68.0")
+    # everything else that determines a harness result: tool version and the verifier flags
+    h.update(b"kani-0.68.0|-Z function-contracts -Z stubbing --exact|result-format-1")
     return h.hexdigest()
 
 
@@ -644,7 +645,7 @@ def check(prop, tier, keep=False, only=None):
                 r = results.get(h.name)
                 if r and r["status"] == "failed" and match_known(known0, prop, h.name, [fc["description"] for fc in r["failed_checks"]]):
                     continue  # a listed known finding: no counterexample needed again
-                if r and r["status"] == "failed" and h.expect != "fail" and nplay < 3:
+                if r and r["status"] == "failed" and h.expect != "fail" and nplay < int(os.environ.get("VERIF_MAX_PLAYBACK", "2")):
                     nplay += 1
                     res2, out2, cmd2, rc2, wall2 = run_kani(scratch, flavour, [h], 1, playback=True)
                     if h.name in res2 and res2[h.name].get("playback") is not None:
